@@ -12,4 +12,54 @@ TEXT = {
         level_note=NOTE,
         technique="property-based testing (rapidcheck) + exhaustive small-scope enumeration + libFuzzer, differential vs std:: / long double",
     ),
+    "C03": dict(
+        level_text="Generated geometries (bundled files, raw OrangeInput with every runtime surface type / daughters with rotations and "
+                   "reflections / arrays / background volumes, construction-API models) x generated rays, point sets and navigation-operation "
+                   "programs, checked in lock-step against an independent long-double point locator and ray marcher computed from the "
+                   "OrangeInput alone. Exploration: the space of geometries and rays is unbounded.",
+        design_ref="DESIGN.md §3.1, §3.2, §4 C03",
+        level_note=NOTE,
+        technique="property-based testing (rapidcheck) + libFuzzer; differential against an independent reference geometry oracle; stateful operation sequences",
+    ),
+    "C13": dict(
+        level_text="discard/init/reseed on generated states and 64-bit counts against a GF(2) matrix reference (exploration) plus exhaustive "
+                   "sub-claims: each of the 64 jump polynomials alone, order of the transition matrix = 2^160-1, float canonical over all 2^32 outputs.",
+        design_ref="DESIGN.md §3.4, §4 C13",
+        level_note=NOTE,
+        technique="property-based testing vs independent GF(2) matrix model; exhaustive enumeration of the algebraic sub-claims; libFuzzer",
+    ),
+    "C15": dict(
+        level_text="Per-sample support predicates, exact/bounded draw counts (incl. adversarial engines forcing extreme canonical values) and "
+                   "goodness of fit (KS/DKW, pooled chi-square, moment bounds at alpha 1e-9 with re-test) for every listed distribution over "
+                   "generated parameters. Exploration with stated statistical resolution.",
+        design_ref="DESIGN.md §3.4, §4 C15",
+        level_note=NOTE,
+        technique="property-based testing with statistical oracles (KS / chi-square / Bernstein bounds) and adversarial RNG engines; libFuzzer",
+    ),
+    "C20": dict(
+        level_text="Generated optical materials, steps and RNG streams; every generated Cerenkov/scintillation photon is checked against a "
+                   "long-double per-photon validity predicate (energy range, unit/orthogonal vectors, position on chord, time window, cone angle), "
+                   "offload thresholds and field equality. Exploration.",
+        design_ref="DESIGN.md §4 C20",
+        level_note=NOTE,
+        technique="property-based testing (rapidcheck) + libFuzzer with per-photon validity oracle",
+    ),
+    "C14": dict(
+        level_text="Generated log grids/tables (direct and through the production ValueGrid builders), energies aimed at every knot +-2 ulp and both "
+                   "ends, steps and loss limits, MSC inputs; checked against a long-double piecewise reference (knots, betweenness, continuity, "
+                   "extrapolation, range/inverse-range round trips, loss relations, path-conversion inequalities) on a real PhysicsParams/"
+                   "PhysicsTrackView. Tables are placed at the end of their heap block so ASan sees any over-read. Exploration.",
+        design_ref="DESIGN.md §4 C14",
+        level_note=NOTE,
+        technique="property-based testing vs long-double reference model + ASan end-of-block tables; libFuzzer",
+    ),
+    "C10": dict(
+        level_text="Generated CSG DAGs (duplicates, complements, shared sub-DAGs, constants, aliases, chains up to the LogicStack capacity) with "
+                   "EXHAUSTIVE truth tables (all 2^n sense assignments, n <= 12) compared before/after insert, exchange, simplify, "
+                   "replace_and_simplify, De Morgan, postfix (runtime LogicEvaluator), infix (runtime InfixEvaluator) and the internal-surface flag; "
+                   "exhaustive per tree, exploration over trees.",
+        design_ref="DESIGN.md §4 C10",
+        level_note=NOTE,
+        technique="property-based testing with exhaustive truth-table oracle per generated tree; libFuzzer",
+    ),
 }
